@@ -29,8 +29,44 @@ func (t *etree) sx() SX {
 	return l
 }
 
+// leaves of every kind an error tree may hold: pointers to cfgerrors types, plain errors, %w wrappers (also around a
+// join: such a wrapper is NOT a join, it is a leaf), values of non-comparable types
+type sliceErr []string
+
+func (e sliceErr) Error() string { return strings.Join(e, " ") }
+
+type structErr struct {
+	id    string
+	extra []int
+}
+
+func (e structErr) Error() string { return e.id }
+
+func leafID(e error) int {
+	if me, ok := e.(*cfgerrors.UnacceptableMethodError); ok {
+		id, _ := strconv.Atoi(me.Value)
+		return id
+	}
+	id := -1
+	fmt.Sscanf(e.Error(), "leaf-%d", &id)
+	return id
+}
+
 func (t *etree) build() error {
 	if t.kids == nil {
+		tag := "leaf-" + strconv.Itoa(t.leaf)
+		switch t.leaf % 7 {
+		case 1:
+			return errors.New(tag)
+		case 2:
+			return fmt.Errorf("%s: %w", tag, errors.New("inner"))
+		case 3:
+			return fmt.Errorf("%s: %w", tag, errors.Join(errors.New("leaf-9001"), errors.New("leaf-9002")))
+		case 4:
+			return sliceErr{tag, "x"}
+		case 5:
+			return structErr{id: tag, extra: []int{1}}
+		}
 		return &cfgerrors.UnacceptableMethodError{Value: strconv.Itoa(t.leaf), Reason: "invalid"}
 	}
 	errs := make([]error, len(t.kids))
@@ -116,11 +152,7 @@ func runAll(t *etree, k int) (seen []int, panicked bool) {
 		}
 	}()
 	for e := range cfgerrors.All(err) {
-		id := -1
-		if me, ok := e.(*cfgerrors.UnacceptableMethodError); ok {
-			id, _ = strconv.Atoi(me.Value)
-		}
-		seen = append(seen, id)
+		seen = append(seen, leafID(e))
 		if k >= 0 && len(seen) == k+1 {
 			break
 		}
@@ -135,11 +167,7 @@ func allReentrancy(t *etree) (ok bool, detail string) {
 	ids := func(es []error) string {
 		var sb []string
 		for _, e := range es {
-			if me, isM := e.(*cfgerrors.UnacceptableMethodError); isM {
-				sb = append(sb, me.Value)
-			} else {
-				sb = append(sb, "?")
-			}
+			sb = append(sb, strconv.Itoa(leafID(e)))
 		}
 		return strings.Join(sb, ",")
 	}
